@@ -33,6 +33,7 @@ const (
 	tagOutside = "OUTSIDE"
 	tagLoader  = "loader" // inside; content additionally performs the load under test
 	tagChain   = "chain"  // inside; content loads sub/ldr.lisp which performs the load under test
+	tagHist    = "hist"   // inside; content performs up to three loads in a row, each with its errors ignored
 )
 
 // theLayout is the layout of DESIGN §C20 with these additions: every
@@ -46,9 +47,11 @@ var theLayout = []layoutEnt{
 	{"root/in.lisp", kFile, tagInside},
 	{"root/ldr.lisp", kFile, tagLoader},
 	{"root/chain.lisp", kFile, tagChain},
+	{"root/hist.lisp", kFile, tagHist},
 	{"root/sub", kDir, ""},
 	{"root/sub/in.lisp", kFile, tagInside},
 	{"root/sub/ldr.lisp", kFile, tagLoader},
+	{"root/sub/hist.lisp", kFile, tagHist},
 	{"root/sub/deep", kDir, ""},
 	{"root/sub/deep/in.lisp", kFile, tagInside},
 	{"root/sub/deep/ldr.lisp", kFile, tagLoader},
@@ -84,6 +87,7 @@ const (
 	symLisp = "c20-lisp?"
 	symLoc  = "c20-loc"
 	symHost = "c20-host-load"
+	symHLoc = "c20-hloc"
 )
 
 // fileContent is what is written to disk (and into the MapFS).
@@ -94,6 +98,11 @@ func fileContent(e layoutEnt) string {
 		return m + "(if (" + symLisp + ") (load-file (" + symLoc + ")) (" + symHost + "))\n"
 	case tagChain:
 		return m + "(load-file \"sub/ldr.lisp\")\n"
+	case tagHist:
+		for i := 0; i < 3; i++ {
+			m += "(ignore-errors (load-file (" + symHLoc + " " + string(rune('0'+i)) + ")))\n"
+		}
+		return m
 	}
 	return m
 }
